@@ -110,6 +110,7 @@ type RPCSpec struct {
 	COps []Op
 	CAux [][]Op
 	CEnd int
+	flushClose bool
 
 	HOps []Op
 	HAux [][]Op
@@ -441,10 +442,16 @@ func (g *e1gen) conversation(r *RPCSpec) {
 			bad := sz > 0 && g.chance(g.mode.BadMsgP)
 			if dir == 0 {
 				r.COps = append(r.COps, Op{Kind: OpSend, Size: sz, Seq: cseq, Bad: bad})
+				if g.cfg.Manual && g.chance(0.3) {
+					r.COps = append(r.COps, Op{Kind: OpFlush})
+				}
 				r.HOps = append(r.HOps, Op{Kind: OpRecv})
 				cseq++
 			} else {
 				r.HOps = append(r.HOps, Op{Kind: OpSend, Size: sz, Seq: hseq, Bad: bad})
+				if g.cfg.Manual && g.chance(0.3) {
+					r.HOps = append(r.HOps, Op{Kind: OpFlush})
+				}
 				r.COps = append(r.COps, Op{Kind: OpRecv})
 				hseq++
 			}
@@ -552,6 +559,21 @@ func (g *e1gen) misbehave(r *RPCSpec) {
 	if g.chance(0.15) {
 		r.HOps = append(r.HOps, Op{Kind: OpWaitCtx})
 	}
+	// manual flushing: a client whose last act before Close is an explicit flush
+	// (no later operation of the stream notices what happened during the flush)
+	if g.cfg.Manual && !r.Duplex && g.chance(0.3) {
+		for i, o := range r.COps {
+			if o.Kind == OpFlush {
+				r.COps = r.COps[:i+1]
+				r.CEnd = EndClose
+				if g.chance(0.5) {
+					r.HOps = nil
+				}
+				r.flushClose = true
+				break
+			}
+		}
+	}
 	if g.chance(0.15) {
 		r.COps = append(r.COps, Op{Kind: OpClose}, Op{Kind: OpSend, Size: 13, Sender: 9, Seq: 0}, Op{Kind: OpRecv})
 	}
@@ -609,6 +631,10 @@ func (g *e1gen) rpc(idx int) *RPCSpec {
 		r.HRet = RetErr
 		r.HErr = g.errSpec(idx)
 		r.Clean = false
+	}
+	if r.flushClose && r.HRet != RetErr && g.chance(0.6) {
+		r.HRet = RetErr
+		r.HErr = g.errSpec(idx)
 	}
 	if g.chance(m.CancelP) {
 		r.Cancel = true
